@@ -545,3 +545,27 @@ mod test {
         );
     }
 }
+
+/// Verification hooks (only with `--cfg sonic_rs_verif`): tables and the 16-digit reader.
+#[cfg(sonic_rs_verif)]
+pub mod verif_hooks {
+    pub fn pow10_uint() -> &'static [u64; 18] {
+        &super::POW10_UINT
+    }
+
+    pub fn pow10_float_bits() -> Vec<u64> {
+        super::POW10_FLOAT.iter().map(|f| f.to_bits()).collect()
+    }
+
+    pub fn power_of_five_128() -> &'static [(u64, u64)] {
+        &super::table::POWER_OF_FIVE_128[..]
+    }
+
+    pub const SMALLEST_POWER_OF_FIVE: i32 = super::table::SMALLEST_POWER_OF_FIVE;
+
+    /// `simd_str2int(c, need)`: `c` must hold at least 16 readable bytes
+    pub fn simd_str2int(c: &[u8], need: usize) -> (u64, usize) {
+        assert!(c.len() >= 16);
+        unsafe { super::arch::simd_str2int(c, need) }
+    }
+}
